@@ -275,6 +275,18 @@ def mergeGo : Option Extent → List Extent → List Extent
 
 def mergeExtents (l : List Extent) : List Extent := mergeGo none l
 
+/-- `merge_extents` as compiled with overflow checks (the dev profile the suite runs): `p.end + 1`
+panics when `p.end = u64::MAX`. `none` = panic. -/
+def mergeGoChk : Option Extent → List Extent → Option (List Extent)
+  | none, [] => some []
+  | some p, [] => some [p]
+  | none, e :: es => mergeGoChk (some e) es
+  | some p, e :: es =>
+      if p.stop + 1 ≥ 2^64 then none
+      else if e.start = p.stop + 1 then
+        mergeGoChk (some { start := p.start, stop := e.stop, shared := p.shared && e.shared }) es
+      else (mergeGoChk (some e) es).map (p :: ·)
+
 /-- One FIEMAP answer: `none` = `EOPNOTSUPP`; otherwise the mapped extents of this page with the
 `FIEMAP_EXTENT_LAST` flag of each. -/
 abbrev FiemapOracle := Nat → Option (List (Extent × Bool))
